@@ -405,6 +405,11 @@ func importOrderOnly(a, b []tokItem) bool {
 
 // inputs of fixed defects
 var c03Regress = []string{
+	// //line directives renumber the lines: upwards (the numbers of a raw string's lines no longer match the
+	// physical lines recorded for it) and downwards onto the lines of an earlier block comment
+	"package a\n\n//line x.go:100\nvar s = []string{`a\nb`}\n\nvar t = []int{\n\t1,\n\t2,\n}\n",
+	"package a\n\n/* c1\nc2\nc3\nc4\nc5\nc6 */\n\n//line x.go:1\nvar v = []int{\n\t1,\n\t2,\n}\n\nimport (\n\t\"z\"\n\n\t\"a\"\n)\n",
+	"package a\n\nvar r = `l1\nl2\nl3\nl4`\n\n//line y.go:2\nfunc f() {\n\tg(\n\t\t1,\n\t\t2,\n\t)\n}\n",
 	"package a\r\n\r\nvar _ = f(`a\r\nb\r\nc\r\n`)\r\n", // 29b97b8: CRLF file with a multi-line raw string
 	"package a\n\nfunc g(\n\tx int,\n\t/* c */) {\n}\n", // 3dd4b07
 }
